@@ -790,6 +790,7 @@ def tasks_for(tier):
         tasks.append((_cfg(["t3", "e3.4", "t3"], (3, 2), "sflw", False), 2, full, 10))
         tasks.append((_cfg(["s1", "t7", "e1.1"], (3, 3), "slw", False), 2, full, 10))
         tasks.append((_cfg(["z0", "i7.19"], (3, 2), "key"), 2, full, 10))  # 0-row item above a tall fixed-cursor item
+        tasks.append((_cfg(["i7.0", "z0"], (3, 2), "key"), 2, full, 10))  # its mirror image (added in triage: the page-down twin of the page-up fall-back that focused a 0-row item)
     else:
         for j, kinds in enumerate(CURATED):
             for wi, w in enumerate(WALKERS):  # every list with every walker, boxes rotating
